@@ -16,7 +16,7 @@ import (
 // C11 — Copier reproduces the source object graph.
 
 func init() {
-	addRun("C11", "random source graphs (dicts, arrays, scalars, reference chains and pure reference cycles, free/dangling/wrong-generation references, object-stream members, streams 0..5000 bytes with 0-3 filters, /Crypt Identity and unsupported crypt filters, indirect /Length via a non-seekable writer, indirect /Filter and /DecodeParms, null dictionary entries, injected malformed and I/O-failing objects) written by the real Writer x programs of 1-6 Copy/CopyReference/Redirect calls x 8 source and 8 target versions x source/target passwords x seekable or not x human-readable target. A case is non-trivial when the program reaches at least two source objects; distinct by seed-independent shape (model input line).", runCPY)
+	addRun("C11", "random source graphs (dicts, arrays, scalars, reference chains and pure reference cycles, free/dangling/wrong-generation references, object-stream members, streams 0..5000 bytes with 0-3 filters, /Crypt Identity and unsupported crypt filters, indirect /Length via a non-seekable writer, indirect /Filter and /DecodeParms, null dictionary entries, injected malformed and I/O-failing objects) written by the real Writer x programs of 1-6 Copy/CopyReference/Redirect calls (the object returned by Copy is written at once or only after 1-3 further calls; in a quarter of the cases a stream is open on the target Writer during the whole program, so that every Put is queued) x 8 source and 8 target versions x source/target passwords x seekable or not x human-readable target. A case is non-trivial when the program reaches at least two source objects; distinct by seed-independent shape (model input line).", runCPY)
 	addReplay("C11", "copier", replayCPY)
 	setCanon("C11", canonReals)
 }
@@ -57,19 +57,43 @@ func genCpyProg(b *cpyBuilt, thorough bool) {
 		}
 		return Pick(r, pool)
 	}
+	var streams []pdf.Reference
+	for _, nd := range cs.nodes {
+		if nd.kind == nkStream {
+			streams = append(streams, nd.ref)
+		}
+	}
+	// the caller writes the object returned by Copy at once, or only after 1..3 further operations
+	later := func() int {
+		if r.P(1, 2) {
+			cs.features["put-later"] = true
+			return 1 + r.Intn(3)
+		}
+		return 0
+	}
 	n := 1 + r.Intn(4)
 	if thorough {
 		n = 1 + r.Intn(6)
+	}
+	if len(streams) >= 2 && r.P(1, 3) {
+		// several streams handed to the caller before any of them is written
+		m := 2 + r.Intn(3)
+		for j := 0; j < m; j++ {
+			ref := Pick(r, streams)
+			if _, err := b.S.Get(ref, true); err == nil {
+				cs.prog = append(cs.prog, cpyOp{kind: "cg", ref: ref, later: m - j + r.Intn(2)})
+				cs.features["put-later"] = true
+			}
+		}
 	}
 	nRedirectFirst := 0
 	if r.P(1, 3) {
 		nRedirectFirst = 1 + r.Intn(2)
 	}
-	roots := 0
 	if cs.longChain > 0 {
 		cs.prog = append(cs.prog, cpyOp{kind: "cr", ref: cs.longHead})
-		roots++
 	}
+	roots := len(cs.prog)
 	for i := 0; i < n+nRedirectFirst; i++ {
 		var op cpyOp
 		k := r.Intn(12)
@@ -81,17 +105,20 @@ func genCpyProg(b *cpyBuilt, thorough bool) {
 			op = cpyOp{kind: "cr", ref: pickRef()}
 		case k < 8:
 			ref := Pick(r, real)
+			if len(streams) > 0 && r.P(1, 2) {
+				ref = Pick(r, streams)
+			}
 			if _, err := b.S.Get(ref, true); err != nil {
 				op = cpyOp{kind: "cr", ref: ref}
 			} else {
-				op = cpyOp{kind: "cg", ref: ref}
+				op = cpyOp{kind: "cg", ref: ref, later: later()}
 			}
 		case k < 10:
 			o := cpyObj(r, 2, pool)
 			if r.P(1, 2) {
 				o = cpyNullify(r, o)
 			}
-			op = cpyOp{kind: "co", obj: o}
+			op = cpyOp{kind: "co", obj: o, later: later()}
 		case k < 11 || roots == 0:
 			op = cpyOp{kind: "rn", ref: Pick(r, pool), marker: pdf.Dict{"Redirected": pdf.Integer(i), "V": cpyScalar(r)}}
 		default:
@@ -492,6 +519,25 @@ func runCpyCase(cs *cpyCase, thorough bool) (res cpyResult) {
 	}
 	tw.GetMeta().Catalog.Pages = pages
 	n0 := pages.Number() + 1
+	// "all copies while a stream is open on the target": Writer.Put then queues every object
+	// (those of CopyReference as well as the caller's) until the stream is closed.
+	var held io.WriteCloser
+	if cs.tgtOpen {
+		hr := tw.Alloc()
+		ws, err := tw.OpenStream(hr, pdf.Dict{"Type": pdf.Name("HeldOpen")})
+		if err != nil {
+			res.line = "skip"
+			res.desc = "target OpenStream: " + err.Error()
+			return
+		}
+		if _, err := ws.Write([]byte("a stream which stays open while the copier works\n")); err != nil {
+			res.line = "skip"
+			res.desc = "target stream write: " + err.Error()
+			return
+		}
+		held = ws
+		n0 = hr.Number() + 1
+	}
 
 	exact := "x"
 	if !cs.tgtSeekable {
@@ -562,6 +608,71 @@ func runCpyCase(cs *cpyCase, thorough bool) (res cpyResult) {
 	}
 
 	anyFailed := false
+	// Objects returned by Copier.Copy which the caller writes later ("Copy now, Put after k
+	// further operations"), and a snapshot of the bytes every returned *pdf.Stream held at the
+	// moment Copy returned: a returned stream is a value, later copies must not change it.
+	type pendingPut struct {
+		ref  pdf.Reference
+		obj  pdf.Native
+		wait int
+	}
+	var pending []pendingPut
+	type streamSnap struct {
+		ref  pdf.Reference
+		stm  *pdf.Stream
+		data []byte
+		op   int
+	}
+	var snaps []streamSnap
+	readStream := func(st *pdf.Stream) []byte {
+		d, _ := io.ReadAll(st.NewReader())
+		return d
+	}
+	putNow := func(p pendingPut) {
+		if st, ok := p.obj.(*pdf.Stream); ok && res.key == "" {
+			for _, sn := range snaps {
+				if sn.stm == st && !bytes.Equal(sn.data, readStream(st)) {
+					res.key = "returned-stream-changed"
+					res.desc = fmt.Sprintf("operation %d: the *pdf.Stream returned by Copier.Copy held %d bytes when it was returned; when it was written (as %v, after further copies) it yields %d different bytes", sn.op, len(sn.data), p.ref, len(readStream(st)))
+				}
+			}
+		}
+		if err := tw.Put(p.ref, p.obj); err != nil && res.key == "" {
+			res.key = "put-of-copy-failed"
+			res.desc = fmt.Sprintf("Writer.Put(%v, <object returned by Copier.Copy>) failed: %v", p.ref, err)
+		}
+	}
+	// hand takes an object returned by Copy: allocate its number now, write it now or later
+	hand := func(i int, op cpyOp, o pdf.Native) pdf.Reference {
+		n := tw.Alloc()
+		if st, ok := o.(*pdf.Stream); ok {
+			snaps = append(snaps, streamSnap{ref: n, stm: st, data: readStream(st), op: i})
+		}
+		p := pendingPut{ref: n, obj: o, wait: op.later}
+		if op.later == 0 {
+			putNow(p)
+		} else {
+			pending = append(pending, p)
+		}
+		return n
+	}
+	// tick is called after every operation: write what is due
+	tick := func(all bool) {
+		var rest []pendingPut
+		for _, p := range pending {
+			p.wait--
+			if all || p.wait <= 0 {
+				putNow(p)
+			} else {
+				rest = append(rest, p)
+			}
+		}
+		pending = rest
+	}
+	type staleCheck struct {
+		t, r pdf.Reference
+	}
+	var staleChecks []staleCheck
 	// runOp executes one operation on the real Copier/Writer.
 	runOp := func(i int, op cpyOp) (oc outcome, opErr error, panicked string) {
 		b.S.gets = 0
@@ -590,10 +701,7 @@ func runCpyCase(cs *cpyCase, thorough bool) (res cpyResult) {
 			if err != nil {
 				return oc, err, ""
 			}
-			n := tw.Alloc()
-			if err := tw.Put(n, o); err != nil {
-				return oc, err, ""
-			}
+			n := hand(i, op, o)
 			return outcome{ok: true, ref: n, sv: v}, nil, ""
 		case "co":
 			var nat pdf.Native
@@ -605,10 +713,7 @@ func runCpyCase(cs *cpyCase, thorough bool) (res cpyResult) {
 			if err != nil {
 				return oc, err, ""
 			}
-			n := tw.Alloc()
-			if err := tw.Put(n, o); err != nil {
-				return oc, err, ""
-			}
+			n := hand(i, op, o)
 			return outcome{ok: true, ref: n, sv: nat}, nil, ""
 		case "rn":
 			n := tw.Alloc()
@@ -667,16 +772,11 @@ func runCpyCase(cs *cpyCase, thorough bool) (res cpyResult) {
 				}
 			}
 			outs = append(outs, oc)
+			tick(false)
 			continue
 		}
-		if op.retry && cs.tgtSeekable && res.key == "" {
-			b.S.gets = -1 << 40
-			written, gerr := tw.Get(oc.ref, true)
-			sv, serr := pdf.Resolve(b.S, op.ref)
-			if gerr == nil && written == nil && serr == nil && sv != nil {
-				res.key = "stale-trans-after-failed-copy"
-				res.desc = fmt.Sprintf("CopyReference(%v) failed; repeating the call returns %v without error, but object %v was never written (the source object is a %T)", op.ref, oc.ref, oc.ref, sv)
-			}
+		if op.retry && cs.tgtSeekable {
+			staleChecks = append(staleChecks, staleCheck{t: oc.ref, r: op.ref}) // looked at when nothing is queued any more
 		}
 		switch op.kind {
 		case "cr":
@@ -694,7 +794,9 @@ func runCpyCase(cs *cpyCase, thorough bool) (res cpyResult) {
 			expected[op.ref] = oc.ref
 		}
 		outs = append(outs, oc)
+		tick(false)
 	}
+	tick(true)
 	res.reached = len(copiedBefore)
 
 	var ops []string
@@ -740,6 +842,28 @@ func runCpyCase(cs *cpyCase, thorough bool) (res cpyResult) {
 		res.desc = fmt.Sprintf("repeating CopyReference allocated %d new objects", probe2-probe-1)
 	}
 
+	if held != nil {
+		if err := held.Close(); err != nil {
+			res.line = "close-error"
+			if res.key == "" {
+				res.key = "deferred-put-failed"
+				res.desc = "closing the stream which was open during the copies (this writes the queued objects): " + err.Error()
+			}
+			return
+		}
+	}
+	for _, sc := range staleChecks {
+		if res.key != "" {
+			break
+		}
+		b.S.gets = -1 << 40
+		written, gerr := tw.Get(sc.t, true)
+		sv, serr := pdf.Resolve(b.S, sc.r)
+		if gerr == nil && written == nil && serr == nil && sv != nil {
+			res.key = "stale-trans-after-failed-copy"
+			res.desc = fmt.Sprintf("CopyReference(%v) failed; repeating the call returns %v without error, but object %v was never written (the source object is a %T)", sc.r, sc.t, sc.t, sv)
+		}
+	}
 	if err := tw.Close(); err != nil {
 		res.line = "close-error"
 		if res.key == "" {
@@ -775,6 +899,22 @@ func runCpyCase(cs *cpyCase, thorough bool) (res cpyResult) {
 		default:
 			rs = append(rs, "-")
 			okRoots = append(okRoots, oc.ref)
+		}
+	}
+	for _, sn := range snaps {
+		if res.key != "" {
+			break
+		}
+		tv, err := T.Get(sn.ref, true)
+		ts, ok := tv.(*pdf.Stream)
+		if err != nil || !ok {
+			res.key = "returned-stream-changed"
+			res.desc = fmt.Sprintf("operation %d: Copier.Copy returned a stream, target %v reads back as %T (%v)", sn.op, sn.ref, tv, err)
+			break
+		}
+		if got := rawOf(T, ts); !bytes.Equal(got, sn.data) {
+			res.key = "returned-stream-changed"
+			res.desc = fmt.Sprintf("operation %d: the *pdf.Stream returned by Copier.Copy held %d bytes when it was returned; target %v reads back %d different bytes", sn.op, len(sn.data), sn.ref, len(got))
 		}
 	}
 	dump, derr := cpyDump(T, okRoots)
@@ -823,7 +963,9 @@ var errSkipped = errors.New("operation skipped")
 
 // ---- corpus: minimised past findings, run first on every check ----
 
-var cpyCorpusNames = []string{"D19-stale-trans", "D19b-cycle-failure", "D4-empty-array", "D5-null-entry"}
+var cpyCorpusNames = []string{"D19-stale-trans", "D19b-cycle-failure", "D4-empty-array", "D5-null-entry",
+	"put-later-rc4", "put-later-aes128", "put-later-aes256", "put-later-plain",
+	"open-stream-rc4", "open-stream-aes256", "open-stream-plain"}
 
 // cpyCorpusCase builds a fixed case.  The program is fixed too (fixedProg).
 func cpyCorpusCase(name string) *cpyCase {
@@ -857,6 +999,39 @@ func cpyCorpusCase(name string) *cpyCase {
 		n.ovObj = pdf.Dict{"A": nil, "B": pdf.Array{nil, pdf.Dict{"C": nil}}}
 		cs.nodes = []*cpyNode{n}
 		cs.prog = []cpyOp{{kind: "cr", ref: ref(2)}, {kind: "co", obj: pdf.Dict{"Z": nil}}}
+	case "put-later-rc4", "put-later-aes128", "put-later-aes256", "put-later-plain",
+		"open-stream-rc4", "open-stream-aes256", "open-stream-plain":
+		// three streams of different lengths and filters below one dictionary.  Either the caller
+		// collects the streams returned by Copy and writes them afterwards, or everything is
+		// copied while a stream is open on the target (all Puts queued).
+		switch {
+		case strings.HasSuffix(name, "rc4"):
+			cs.srcVer, cs.srcPw = pdf.V1_4, "src"
+		case strings.HasSuffix(name, "aes128"):
+			cs.srcVer, cs.srcPw = pdf.V1_7, "src"
+		case strings.HasSuffix(name, "aes256"):
+			cs.srcVer, cs.srcPw = pdf.V2_0, "src"
+		}
+		if strings.HasPrefix(name, "open-stream") {
+			cs.tgtOpen = true
+			cs.tgtPw = "tgt"
+		}
+		stm := func(n int, fill byte, size int, fs ...pdf.Filter) *cpyNode {
+			return &cpyNode{ref: ref(n), kind: nkStream, dict: pdf.Dict{"N": pdf.Integer(n)},
+				data: bytes.Repeat([]byte{fill}, size), filters: fs}
+		}
+		cs.nodes = []*cpyNode{
+			node(2, pdf.Dict{"A": ref(3), "B": ref(4), "C": ref(5)}),
+			stm(3, 'A', 49),
+			stm(4, 'B', 1509, pdf.FilterASCIIHex{}),
+			stm(5, 'C', 26, pdf.FilterFlate{}),
+		}
+		if strings.HasPrefix(name, "open-stream") {
+			cs.prog = []cpyOp{{kind: "cr", ref: ref(2)}, {kind: "cg", ref: ref(4)}}
+		} else {
+			cs.prog = []cpyOp{{kind: "cg", ref: ref(3), later: 3}, {kind: "cg", ref: ref(4), later: 2},
+				{kind: "cg", ref: ref(5), later: 2}, {kind: "cr", ref: ref(2)}}
+		}
 	default:
 		return nil
 	}
